@@ -1675,6 +1675,75 @@ def rule_json_report(rep, repo):
                 instance="%s.%s" % (name, key))
 
 
+def rule_live_scale(rep, repo):
+  """R12: with model_weights_already_quantized=False the data-type map
+  quantizes the raw weights through qtools_util.get_weights and right
+  afterwards reads the kernel quantizer's data-dependent `scale` from
+  layer.get_quantizers()[0] (adjust_accumulator_for_auto_po2).  So the call
+  inside get_weights has to be made on the layer's LIVE quantizer objects:
+  afterwards each of them holds the scale of the weight it was just given.
+  Stand-in quantizers record the scale of their last call and can be
+  copied."""
+  qu = repo.module("qkeras.qtools.qtools_util")
+  fn = qu.functions.get("get_weights")
+  if fn is None:
+    raise AnalysisError("anchor-missing qtools_util.get_weights")
+  unit = "%s::get_weights" % qu.relpath
+  rep.unit(unit)
+  loc = qu.loc(fn)
+
+  def quantizer(tag):
+    q = Mock("q_" + tag, {"scale": "scale of an earlier call",
+                          "__copyable__": True})
+
+    def call(pe, a, k, q=q):
+      # (a copy made by copy.deepcopy gets its own closure-free behaviour:
+      # the attribute is written on the object that is CALLED)
+      return Tensor(("app", "Q_" + tag, (), (pe.as_term(a[0]),)), None)
+    q.attrs["__call__"] = call
+    return q
+  qs = [quantizer("kernel"), quantizer("bias")]
+  called = []
+
+  def make_call(q, tag):
+    def call(pe, a, k):
+      me = pe.__dict__.get("_current_callee", q)
+      called.append((tag, me))
+      t_ = pe.as_term(a[0])
+      while isinstance(t_, tuple) and t_[0] == "app" and t_[3]:
+        t_ = t_[3][0]          # (K.constant(w) and the like wrap the weight)
+      me.attrs["scale"] = "scale of %s" % (t_[1] if isinstance(
+          t_, tuple) and t_[0] == "sym" else t_,)
+      return Tensor(("app", "Q_" + tag, (), (pe.as_term(a[0]),)), None)
+    return call
+  for q, tag in zip(qs, ("kernel", "bias")):
+    q.attrs["__call__"] = make_call(q, tag)
+  weights = [Tensor(("sym", "w_kernel"), (4, 3)),
+             Tensor(("sym", "w_bias"), (3,))]
+  layer = Mock("layer", {"get_weights": lambda pe, a, k: list(weights),
+                         "get_quantizers": lambda pe, a, k: list(qs),
+                         "name": "dense"})
+  pe = PE(repo)
+  pe.opaque_ext = True
+  try:
+    out = pe.call(pe.lookup_global("get_weights", qu), [layer], {
+        "model_weights_already_quantized": False})
+  except (PyRaise, Unsupported) as e:
+    rep.fail("R12", unit, "get_weights-raises", "raises %s" % e, loc=loc)
+    return
+  for q, tag in zip(qs, ("kernel", "bias")):
+    rep.check(str(q.attrs.get("scale")).startswith("scale of w_" + tag),
+              "R12", unit, "live-quantizer-not-called:" + tag,
+              "after get_weights(layer, model_weights_already_quantized="
+              "False) the layer's own %s quantizer holds %r: the scale the "
+              "data-type map reads next is not the scale of the current "
+              "weights (%d quantizer calls were made, on %s)" % (
+                  tag, q.attrs.get("scale"), len(called),
+                  "the layer's objects" if all(
+                      c[1] in qs for c in called) else "other objects"),
+              loc=loc, instance=tag)
+
+
 def run(rep, repo, tier):
   rep.trusted.append("the factories' own arithmetic is C16/C17; here only "
                      "which values are wired where")
@@ -1698,6 +1767,8 @@ def run(rep, repo, tier):
   rule_graph_construction(rep, repo)
   rep.require_instances("R9", 10)
   rule_json_report(rep, repo)
+  rule_live_scale(rep, repo)
+  rep.require_instances("R12", 2)
   # the input types the map is built from follow the quantizer objects as
   # they are when the map is generated (shared with C16 R13)
   from .c16 import rule_conversion_follows_object
